@@ -345,6 +345,12 @@ def minimal_replay(schema, info):
 
 
 def exit_threshold():
+    """p21read's documented rule: the read fails (exit 1) when the severity is SEVERITY_INCOMPLETE or worse.  Fixed by the
+    property, not taken from the source (the source's threshold is what theorem C15_* and the real p21read runs check)."""
+    return "INCOMPLETE"
+
+
+def _unused_exit_threshold():
     t = open(os.path.join(VERIF, "lean/StepModel/Generated/AttrNullGen.lean")).read()
     m = re.search(r"def p21readExitThreshold : Sev := \.(\w+)", t)
     names = {"null": "NULL", "usermsg": "USERMSG", "incomplete": "INCOMPLETE", "warning": "WARNING",
